@@ -157,6 +157,7 @@ class SubCheck:
 
     def __init__(self):
         self.obs = []
+        self.known = {}
         self.explanation = ""
         self.not_decided, self.assumptions, self.depends_on, self.trusted = [], [], [], []
 
@@ -172,3 +173,23 @@ class SubCheck:
 
     def note_analysed(self, **kw):
         pass
+
+
+def restate(chk, rule, dep, repo, keep, tier="quick"):
+    """run another property's rule module and re-state, under `rule`, the obligations keep(rule_id, construct) selects.
+    An analysis error in the dependency is raised again unless one of its obligations failed outright."""
+    from .term import AnalysisError
+    sub = SubCheck()
+    err = None
+    try:
+        dep.run(sub, repo, tier)
+    except AnalysisError as e:
+        err = e
+    n = 0
+    for r, construct, key, ok, detail, where in sub.obs:
+        if keep(r, construct):
+            chk.ob(rule, construct, f"[{r}] {key}", ok, detail, where)
+            n += 1
+    if err is not None and all(o[3] for o in sub.obs):
+        raise err
+    return n
